@@ -265,13 +265,13 @@ def call_named(ex, name, args, kwargs, st, node, spec):
     raise Unsupported(f"call of unknown function {name!r} at line {getattr(node, 'lineno', '?')} in {ex.cx.fn}")
 
 
-def construct(ex, cls, args, kwargs, st, node, spec):
+def construct(ex, cls, args, kwargs, st, node, spec, real_init=False):
     w = ex.world
     c = w.contract_for(cls + ".__init__", ex.cx) or w.contract_for(cls, ex.cx)
     if c is not None and c.qualname.endswith("__init__") is False and c.name == cls:
         return apply_contract(ex, c, None, args, kwargs, st, node, spec)[0]
     h = w.ctor_handler(cls)
-    if h is not None:
+    if h is not None and not real_init:
         return h(ex, st, args, kwargs, node, spec)
     obj = ObjV(cls, {"__cls__": z3.IntVal(w.cls_tag(cls)), "__id__": fresh(f"id.{cls}", I)})
     m = w.find_method(cls, "__init__")
